@@ -79,6 +79,47 @@ SPECS = {
                      "monitor compares a later fresh load with the state at the last write; the Tee backend compares the in-memory and SQLite "
                      "providers after every write; one evaluation = one reload / lockstep step / crash point / provider comparison; distinct "
                      "= distinct (kind, position, pending?, cached proposals, result) cells"),
+    "C02": dict(shards=(8, 32), level="exploration", post="c02_post",
+                floors={"quick": {"outsider_fed:commit": 1000, "outsider_fed:proposal": 1500, "outsider_fed:application": 1000,
+                                  "offline_commits_checked": 300, "offline_path_seals_checked": 1000, "offline_welcome_seals_checked": 100,
+                                  "offline_removed_members_checked": 40, "commit_external": 10}},
+                show=("histories", "commit_accepted", "commit_external", "outsider_fed", "offline_", "secrets_compared"),
+                rule="seeded histories with removals, replacements (external commit with removal) and never-added parties; online: every "
+                     "former object of every removed/replaced party receives all later commits, proposals and application messages and must "
+                     "refuse them, and never shares an authenticator/exported secret with a later epoch; offline (independent Python "
+                     "resolution.py over the recorded hpke_seal events of the committer): UpdatePathNode recipients equal the copath "
+                     "resolutions of the new tree minus newly added leaves as a multiset and per level, none is a key a removed member knew, "
+                     "Welcome recipients equal the init keys of the added key packages; one evaluation = one outsider delivery or one commit "
+                     "judged offline; distinct = distinct (message kind, epoch distance) cells + distinct commits"),
+    "C07": dict(shards=(8, 32), level="exploration",
+                floors={"quick": {"joiner_ops_checked:welcome": 150, "joiner_ops_checked:external_commit": 10,
+                                  "key_package_consumption_checked": 150, "negative:welcome_reused_after_write": 150,
+                                  "negative:welcome_with_tree_of_other_epoch": 100, "negative:external_commit_from_stale_group_info": 100,
+                                  "agree_checked:joiner": 150, "rejoin_same_storage_probed": 10}},
+                show=("histories", "commit_accepted", "joiner_", "key_package", "negative", "rejoin", "agree_checked"),
+                rule="seeded histories biased towards joins (several joiners per commit, adds mixed with removes/updates, with and without "
+                     "path, PSKs, single and per-member Welcome, tree in extension or out of band, external commits with and without "
+                     "replacement, former members coming back with the same storage); per joiner: agreement with all members, send / receive / "
+                     "first commit accepted by everybody (on clones), key package gone after the first write, Welcome not reusable; negative "
+                     "table: tree of another epoch, missing tree, external commit from a stale GroupInfo; distinct = distinct "
+                     "(check, join kind, LCA level / epoch distance) cells"),
+    "C08": dict(shards=(8, 32), level="exploration", post="c08_post",
+                floors={"quick": {"validated:receiver": 2000, "validated:joiner": 300, "validated:committer": 500, "placement_checked": 300,
+                                  "offline_tree_hashes_recomputed": 300, "shape:interior_blank_leaf": 50,
+                                  "shape:unmerged_leaf_under_parent": 50, "shape:regrew_after_shrink": 20}},
+                show=("histories", "commit_accepted", "validated", "placement", "offline_", "shape"),
+                rule="seeded histories biased towards grow/shrink/regrow; after every commit every member's exported tree + signed GroupInfo is "
+                     "fed to ExternalClient::observe_group (complete joiner validation) and distinct (tree, tree hash) pairs are recomputed "
+                     "from scratch by treehash.py (tree hash, parent-hash chains, structure); leaf placement of every add is compared with "
+                     "'leftmost blank after the removes'; distinct = distinct (exported tree, role) pairs"),
+    "C09": dict(shards=(8, 32), level="exploration",
+                floors={"quick": {"private_key_checked": 8000, "freshness_checked": 1500, "leaf_rekey_checked": 500}},
+                show=("histories", "commit_accepted", "private_key", "freshness", "leaf_rekey", "entitled"),
+                rule="after every commit of seeded histories, for every member and every direct-path position: a stored private key must "
+                     "open what is sealed to the node's public key (HPKE round trip through the member's provider), no key for blank nodes "
+                     "or beyond the path; after a path commit no committer path key may occur in the previous tree; a leaf private key "
+                     "replaced by the member's own update/commit must not occur in its serialised state; distinct = distinct "
+                     "(role, path position, key present, node present, LCA level) cells"),
     "C11": dict(shards=(8, 32), level="exploration",
                 floors={"quick": {"winner_orders_resolved": 300, "stale_commit_refused": 2000, "stale_detached_refused": 150,
                                   "second_build_refused": 150, "read_with_pending_ok": 300, "agreement_checked": 1000,
